@@ -12,7 +12,9 @@ from common import hx, unhx
 
 GROUP = "geometry"
 FILES = ["gen/Gen_geometry.v", "Model_density.v", "Proofs_geometry.v", "Proofs_density.v",
-         "Model_poles_axes.v", "Proofs_poles_axes.v", "Entry_geometry.v", "Extract_geometry.v"]
+         "Model_poles_axes.v", "Proofs_poles_axes.v", "Entry_geometry.v", "Extract_geometry.v",
+         # tie T for point_density (five kernels, g = 2, 3; n = 1, 2) and for poles on 2 / 3 orientations
+         "gen/Gen_density.v", "Inst_density.v", "Inst_density_kamb.v", "Inst_density_exp.v", "Inst_density_inv.v", "Inst_density_all.v"]
 PROP = "Properties/C20.v"
 AXES = ("xy", "xz", "yx", "yz", "zx", "zy")
 KERNELS = ("kamb_count", "schmidt_count", "exponential_kamb", "linear_inverse_kamb", "square_inverse_kamb")
@@ -284,11 +286,222 @@ def gen_density(rng, tier):
     return cases
 
 
+# --------------------------------------------------------------------------
+# INPUT REPRESENTATIONS of one mathematical point (added after seeded change C20d, which dropped the
+# `.astype(float)` of to_cartesian / to_spherical: integer-dtype coordinates wrapped around in
+# x**2 + y**2 + z**2, int8 / int16 / float16 / float32 input was evaluated in reduced precision, and
+# every case of this harness was a tuple of Python floats).  A case (fn, args, rep) carries the EXACT
+# values `args` (what the model is given, as binary64) and `rep` = {"dt": dtype name, "as": container}:
+# the implementation receives the same numbers in that representation.  Only values that the
+# representation holds exactly are generated, so every representation denotes the same point.
+# --------------------------------------------------------------------------
+INT_RANGE = {"bool": (0, 1), "int8": (-2**7, 2**7 - 1), "int16": (-2**15, 2**15 - 1), "int32": (-2**31, 2**31 - 1),
+             "int64": (-2**63, 2**63 - 1), "uint8": (0, 2**8 - 1), "uint16": (0, 2**16 - 1), "uint32": (0, 2**32 - 1),
+             "uint64": (0, 2**64 - 1), "pyint": (-2**80, 2**80)}
+FLOAT_DT = ("float16", "float32", "float64", "pyfloat")
+REP_DT = tuple(INT_RANGE) + FLOAT_DT
+CONTAINERS = ("scalar", "0d", "1d", "list", "mixed", "batch3")
+NP_OF = {"bool": np.bool_, "int8": np.int8, "int16": np.int16, "int32": np.int32, "int64": np.int64, "uint8": np.uint8,
+         "uint16": np.uint16, "uint32": np.uint32, "uint64": np.uint64, "float16": np.float16, "float32": np.float32,
+         "float64": np.float64}
+BATCH_OTHERS = ((1, 1), (0, 1), (1, 1))    # two more points (1,0,1), (1,1,1) stacked behind the case in "batch3"
+
+
+def rep_of(c):
+    return c[2] if c[0] in ("to_spherical", "to_cartesian", "lambert") and len(c) > 2 and isinstance(c[2], dict) else None
+
+
+def holds(v, dt):
+    """is the number v (int or float, exactly a binary64 value) held exactly by the representation?"""
+    if dt in INT_RANGE:
+        lo, hi = INT_RANGE[dt]
+        return float(v).is_integer() and lo <= int(v) <= hi and float(int(v)) == float(v)
+    if dt in ("float64", "pyfloat"):
+        return True
+    with warnings.catch_warnings():
+        warnings.simplefilter("ignore")
+        w = NP_OF[dt](v)
+    return bool(np.isfinite(w)) and float(w) == float(v)
+
+
+def one(v, dt):
+    """the number v as a scalar of the representation"""
+    if dt == "pyint":
+        return int(v)
+    if dt == "pyfloat":
+        return float(v)
+    if dt in INT_RANGE:
+        return NP_OF[dt](int(v))
+    return NP_OF[dt](v)
+
+
+def present(c):
+    """arguments of the call, in the representation of the case (plain floats when there is none)"""
+    rep = rep_of(c)
+    if rep is None:
+        return list(c[1])
+    dt, how = rep["dt"], rep["as"]
+    npdt = NP_OF.get(dt)      # None for pyint / pyfloat: NumPy chooses (int64 / uint64 / object; float64)
+    vals = [one(v, dt) for v in c[1]]
+    if how == "scalar":
+        return vals
+    if how == "0d":
+        return [np.array(v, dtype=npdt) for v in vals]
+    if how == "1d":
+        return [np.array([v], dtype=npdt) for v in vals]
+    if how == "list":
+        return [[v] for v in vals]
+    if how == "mixed":        # an array for the first argument, Python numbers for the others
+        return [np.array([vals[0]], dtype=npdt)] + [int(v) if float(v).is_integer() else float(v) for v in c[1][1:]]
+    if how == "batch3":       # the point first, two small points behind it, one array per coordinate
+        return [np.array([v, one(o[0], dt), one(o[1], dt)], dtype=npdt) for v, o in zip(vals, BATCH_OTHERS)]
+    raise ValueError(how)
+
+
+def _reps_for(rng, dt, k=2):
+    conts = [x for x in CONTAINERS if not (dt in ("pyint", "pyfloat") and x in ("0d", "1d", "batch3"))]
+    pick = ["1d" if "1d" in conts else "scalar"]
+    rest = [x for x in conts if x not in pick]
+    pick += [rest[int(i)] for i in rng.permutation(len(rest))[:k]]
+    return [{"dt": dt, "as": h} for h in pick]
+
+
+def _emit(rng, fn, pts, dt, out, k=2):
+    for p in pts:
+        if all(holds(v, dt) for v in p):
+            for rep in _reps_for(rng, dt, k):
+                if rep["as"] == "batch3" and not all(holds(o, dt) for o in (0, 1)):
+                    continue
+                out.append((fn, tuple(p), rep))
+
+
+def gen_point_reps(rng, tier):
+    """to_spherical: the same points as integers / floats of every dtype the API accepts"""
+    out = []
+    for dt, (lo, hi) in INT_RANGE.items():
+        hi_ = min(hi, 2**62)
+        b = math.isqrt(hi_)                       # the largest |x| whose square the dtype still holds
+        b3 = math.isqrt(hi_ // 3)                 # ... whose three squares still add up inside the dtype
+        mags = sorted({1, 2, 3, b3, b3 + 1, b, b + 1, 2 * b, hi_ // 2, hi_} - {0})
+        pts = []
+        for m in mags:
+            pts += [(m, 0, 0), (0, m, 0), (0, 0, m), (m, m, m)]
+            if lo < 0:
+                pts += [(-m, 0, 0), (0, -m, 0), (0, 0, -m), (-m, m, -m)]
+        for kk in (1, max(1, b // 13), max(1, b // 12) + 1, max(1, hi_ // 12)):      # (3,4,12) k has norm 13 k
+            pts += [(3 * kk, 4 * kk, 12 * kk)] + ([(-3 * kk, 4 * kk, -12 * kk), (12 * kk, -3 * kk, 4 * kk)] if lo < 0 else [])
+        for _ in range(4 if tier == "quick" else 40):
+            top = int(min(hi_, 10 ** int(rng.integers(1, 19))))
+            q = [int(rng.integers(max(lo, -top), top + 1)) for _ in range(3)]
+            pts.append(tuple(q))
+        if dt == "pyint":
+            pts += [(2**70, 0, 3 * 2**68), (-2**64, 2**64, 2**63), (5_000_000_000, 0, -1), (4_000_000_000, 0, 3_000_000_000)]
+        pts = [p for p in dict.fromkeys(pts) if any(p)]
+        _emit(rng, "to_spherical", pts, dt, out, k=1 if tier == "quick" else 3)
+    for dt in FLOAT_DT:
+        pts = []
+        npdt = NP_OF.get(dt, np.float64)
+        info = np.finfo(npdt)
+        big, tiny = float(info.max), float(info.tiny)
+        ladder = [1.0, 0.5, 3.0, math.sqrt(big) / 2, math.sqrt(big) * 2, big / 4, math.sqrt(tiny) * 4, math.sqrt(tiny) / 4,
+                  tiny * 8, 1e-3, 300.0]
+        with warnings.catch_warnings():
+            warnings.simplefilter("ignore")
+            for m in ladder:
+                m = float(npdt(m))
+                if not (math.isfinite(m) and m > 0) or (dt in ("float64", "pyfloat") and not 1e-150 < m < 1e150):
+                    continue
+                pts += [(m, 0.0, 0.0), (0.0, -m, 0.0), (0.0, 0.0, -m), (m, -m, m), (m, m / 2, 0.0)]
+            for v in unit_vectors(rng, 6 if tier == "quick" else 60):
+                m = 10.0 ** rng.uniform(-3, 3)
+                q = tuple(float(npdt(x * m)) for x in v)
+                if all(math.isfinite(x) for x in q) and any(q):
+                    pts.append(q)
+        _emit(rng, "to_spherical", list(dict.fromkeys(pts)), dt, out, k=1 if tier == "quick" else 3)
+    return out
+
+
+def gen_angle_reps(rng, tier):
+    """to_cartesian: integer radians / radii, and floats of every width"""
+    out = []
+    for dt, (lo, hi) in INT_RANGE.items():
+        hi_ = min(hi, 2**62)
+        b = math.isqrt(hi_)
+        pts = [(ph, th, r) for ph in (0, 1, 3, 6) for th in (0, 1, 2, 3) for r in (1, 2)]
+        pts += [(1, 2, r) for r in (b, b + 1, hi_ // 2, hi_)]
+        if lo < 0:
+            pts += [(-1, 2, 5), (-3, 1, 7), (-6, 3, 100), (2, 1, -3)]
+        _emit(rng, "to_cartesian", list(dict.fromkeys(pts)), dt, out, k=1 if tier == "quick" else 3)
+    for dt in FLOAT_DT:
+        npdt = NP_OF.get(dt, np.float64)
+        pts = []
+        for _ in range(8 if tier == "quick" else 80):
+            q = (float(npdt(rng.uniform(-2 * math.pi, 2 * math.pi))), float(npdt(rng.uniform(0, math.pi))),
+                 float(npdt(10.0 ** rng.uniform(-3, 3))))
+            pts.append(q)
+        _emit(rng, "to_cartesian", pts, dt, out, k=1 if tier == "quick" else 3)
+    return out
+
+
+def gen_lambert_reps(rng, tier):
+    out = []
+    ipts = [(0, 0, 1), (0, 0, -1), (1, 0, 0), (0, 1, 0), (-1, 0, 0), (0, -1, 0), (1, 1, 0), (2, 1, 2), (0, 0, 2), (1, 1, 1)]
+    for dt, (lo, _) in INT_RANGE.items():
+        _emit(rng, "lambert", [p for p in ipts if lo < 0 or min(p) >= 0], dt, out, k=1)
+    for dt in FLOAT_DT:
+        npdt = NP_OF.get(dt, np.float64)
+        pts = [tuple(float(npdt(x)) for x in v) for v in unit_vectors(rng, 6 if tier == "quick" else 60)]
+        _emit(rng, "lambert", pts, dt, out, k=1)
+    return out
+
+
+def density_rep(c):
+    """representation of the data / weights of a point_density case (carried in its `kind` string)"""
+    return c[7].split("|rep:")[1] if "|rep:" in c[7] else None
+
+
+def present_density(c):
+    _, k, axial, g, sigma, w, d, _ = c
+    rep = density_rep(c)
+    cols = [d[:, 0], d[:, 1], d[:, 2]]
+    if rep in ("float32", "float16", "int64", "int8"):
+        cols = [np.ascontiguousarray(x.astype(NP_OF[rep])) for x in cols]
+    elif rep == "list":
+        cols = [[float(v) for v in x] for x in cols]
+    elif rep == "mixed":       # one float32 column, one list, one strided float64 view
+        buf = np.zeros((len(d), 2))
+        buf[:, 0] = d[:, 2]
+        cols = [cols[0].astype(np.float32), [float(v) for v in cols[1]], buf[:, 0]]
+    if rep in ("int64", "int8") or (rep and float(w).is_integer() and g % 2 == 0):
+        w = int(w) if float(w).is_integer() else w
+    return cols, w
+
+
+def gen_density_reps(rng, tier):
+    """point_density with the data as float32 / float16 arrays (values those formats hold exactly), as
+    integer arrays (signed axis vectors), lists and mixed columns; integer weights"""
+    cases = []
+    for k in range(5):
+        n = int(rng.integers(20, 120))
+        g = int(rng.choice([6, 9, 11]))
+        for rep in ("float32", "float16", "list", "mixed"):
+            d = unit_vectors(rng, n)
+            if rep in ("float32", "float16", "mixed"):
+                d = d.astype(np.float16 if rep == "float16" else np.float32).astype(np.float64)
+            cases.append(("density", k, True, g, 10.0, float(rng.choice([1.0, 2.0])), d, "random|rep:" + rep))
+        ax = np.vstack([np.eye(3), -np.eye(3)])[rng.integers(0, 6, size=n)]
+        cases.append(("density", k, True, g, 10.0, 1.0, ax, "axes|rep:" + str(rng.choice(["int64", "int8"]))))
+    return cases
+
+
 def gen_cases(chk, tier):
     rng = np.random.default_rng(chk.seed)
     rng2 = np.random.default_rng([chk.seed, 20])  # the option-space families have their own stream: the older cases stay as they were
+    rng3 = np.random.default_rng([chk.seed, 204])  # input representations (after C20d): own stream as well
     return (gen_points(rng, tier) + gen_angles(rng, tier) + gen_lambert(rng, tier) + gen_poles(rng, tier)
-            + gen_poles_options(rng2, tier) + gen_density(rng, tier))
+            + gen_poles_options(rng2, tier) + gen_density(rng, tier)
+            + gen_point_reps(rng3, tier) + gen_angle_reps(rng3, tier) + gen_lambert_reps(rng3, tier)
+            + gen_density_reps(rng3, tier))
 
 
 # --------------------------------------------------------------------------
@@ -426,15 +639,14 @@ def impl(c):
     try:
         with warnings.catch_warnings():
             warnings.simplefilter("ignore")
-            if c[0] == "to_spherical":
-                r, p, t = geo.to_spherical(*c[1])
-                return ("OK", [float(r[0]), float(p[0]), float(t[0])])
-            if c[0] == "to_cartesian":
-                x, y, z = geo.to_cartesian(*c[1])
-                return ("OK", [float(x[0]), float(y[0]), float(z[0])])
-            if c[0] == "lambert":
-                X, Y = geo.lambert_equal_area(*c[1])
-                return ("OK", [float(X[0]), float(Y[0])])
+            if c[0] in ("to_spherical", "to_cartesian", "lambert"):
+                fn = {"to_spherical": geo.to_spherical, "to_cartesian": geo.to_cartesian, "lambert": geo.lambert_equal_area}[c[0]]
+                args = present(c)
+                before = [_bytes(a) for a in args]
+                out = fn(*args)
+                if [_bytes(a) for a in args] != before:
+                    return ("ERR", "ArgumentsModified", "the call changed its arguments")
+                return ("OK", [float(np.asarray(v).reshape(-1)[0]) for v in out])
             if c[0] == "poles" and popts(c):
                 v, hyg = call_poles(c)
                 return ("OK", [float(t) for t in v.reshape(-1)], hyg, str(v.dtype))
@@ -444,7 +656,8 @@ def impl(c):
             if c[0] == "density":
                 _, k, axial, g, sigma, w, d, _ = c
                 kw = {} if k == 1 else {"σ": sigma}
-                X, Y, t = stats.point_density(d[:, 0], d[:, 1], d[:, 2], gridsteps=g, weights=w,
+                cols, w = present_density(c)
+                X, Y, t = stats.point_density(cols[0], cols[1], cols[2], gridsteps=g, weights=w,
                                               kernel=KERNELS[k], axial=axial, **kw)
                 return ("OK", [float(v) for v in np.concatenate([X.ravel(), Y.ravel(), t.ravel()])])
     except Exception as e:  # noqa: BLE001
@@ -454,7 +667,7 @@ def impl(c):
 
 def model_lines(c):
     if c[0] in ("to_spherical", "to_cartesian", "lambert"):
-        return [common.model_line(c[0], [], c[1])]
+        return [common.model_line(c[0], [], [float(v) for v in c[1]])]
     if c[0] == "poles" and popts(c):
         # any string: how it is read, and the result for both choices set.pop() can make
         codes = [ord(ch) for ch in c[1]]
@@ -474,7 +687,11 @@ def encode(c):
     if c[0] == "malformed":
         return {"fn": "poles", "malformed": c[1]}
     if c[0] in ("to_spherical", "to_cartesian", "lambert"):
-        return {"fn": c[0], "args": [hx(x) for x in c[1]]}
+        e = {"fn": c[0], "args": [hx(x) for x in c[1]]}
+        if rep_of(c):
+            e["representation"] = rep_of(c)          # dtype + container the implementation receives (see present)
+            e["args_exact"] = [str(int(v)) if float(v).is_integer() else repr(float(v)) for v in c[1]]
+        return e
     if c[0] == "poles":
         e = {"fn": "poles", "ref_axes": c[1], "hkl": [hx(x) for x in c[2]], "n": len(c[3]),
              "orientations": [hx(x) for x in c[3].reshape(-1)]}
@@ -488,7 +705,8 @@ def encode(c):
 
 def decode(d):
     if d["fn"] in ("to_spherical", "to_cartesian", "lambert"):
-        return (d["fn"], tuple(unhx(x) for x in d["args"]))
+        c = (d["fn"], tuple(unhx(x) for x in d["args"]))
+        return c + (d["representation"],) if d.get("representation") else c
     if d["fn"] == "poles":
         c = ("poles", d["ref_axes"], np.array([unhx(x) for x in d["hkl"]]),
              np.array([unhx(x) for x in d["orientations"]], dtype=float).reshape(d["n"], 3, 3))
@@ -608,6 +826,9 @@ def compare(chk, cases):
                 bad.append((c, msg))
             continue
         hist[key] = hist.get(key, 0) + 1
+        if rep_of(c) or (c[0] == "density" and density_rep(c)):
+            rk = f"representation:{c[0]}:" + (f"{rep_of(c)['dt']}/{rep_of(c)['as']}" if rep_of(c) else density_rep(c))
+            hist[rk] = hist.get(rk, 0) + 1
         flat = r[1] if r[0] == "OK" else []
         trivial = r[0] == "OK" and not any(flat)
         chk.note_case(repr(encode(c)), nontrivial=not trivial, sample=None)
@@ -662,35 +883,46 @@ def oracle(c):
         warnings.simplefilter("ignore")
         try:
             if c[0] == "to_spherical":
-                p = np.array(c[1], dtype=float)
+                # reference values from exact Python integers / math (never from NumPy in the caller's dtype)
+                ex = [int(v) if float(v).is_integer() else float(v) for v in c[1]]
+                p = np.array([float(v) for v in ex])
                 if not np.any(p):
                     return []
-                r, ph, th = (float(v[0]) for v in geo.to_spherical(*p))
-                n = float(np.linalg.norm(p))
-                back = np.array([float(v[0]) for v in geo.to_cartesian(ph, th, r)])
+                if all(isinstance(v, int) for v in ex):
+                    n = math.sqrt(sum(v * v for v in ex)) if max(abs(v) for v in ex) < 2**500 else math.hypot(*p)
+                else:
+                    n = math.hypot(*p)
+                out = geo.to_spherical(*present(c))
+                r, ph, th = (float(np.asarray(v).reshape(-1)[0]) for v in out)
+                # the round trip feeds the returned arrays back, as a caller does
+                back = np.array([float(np.asarray(v).reshape(-1)[0]) for v in geo.to_cartesian(out[1], out[2], out[0])])
+                shown = f"to_spherical{tuple(ex)}" + (f" given as {rep_of(c)['dt']} ({rep_of(c)['as']})" if rep_of(c) else "")
                 if not np.all(np.isfinite([r, ph, th])):
-                    fails.append(f"to_spherical{tuple(p)} is not finite: {(r, ph, th)}")
-                elif np.abs(back - p).max() > 1e-9 * n:
-                    fails.append(f"to_cartesian(to_spherical(p)) = {back} != p = {p}")
+                    fails.append(f"{shown} is not finite: {(r, ph, th)}")
+                elif not np.all(np.isfinite(back)) or np.abs(back - p).max() > 1e-9 * n:
+                    fails.append(f"to_cartesian({shown}) = {back} != p = {p} (r = {r}, |p| = {n})")
                 else:
                     if abs(r - n) > 1e-12 * n:
-                        fails.append(f"r = {r} is not |p| = {n}")
+                        fails.append(f"{shown}: r = {r} is not |p| = {n}")
                     if not (0 <= th <= math.pi) or abs(math.cos(th) - p[2] / n) > 1e-9:
-                        fails.append(f"theta = {th} is not the colatitude acos(z/r) = {math.acos(max(-1, min(1, p[2] / n)))}")
+                        fails.append(f"{shown}: theta = {th} is not the colatitude acos(z/r) = {math.acos(max(-1, min(1, p[2] / n)))}")
                     s = math.hypot(p[0], p[1])
                     if s > 1e-9 * n and (abs(s * math.cos(ph) - p[0]) > 1e-9 * n or abs(s * math.sin(ph) - p[1]) > 1e-9 * n):
-                        fails.append(f"phi = {ph} is not the longitude of ({p[0]}, {p[1]})")
+                        fails.append(f"{shown}: phi = {ph} is not the longitude of ({p[0]}, {p[1]})")
+                    elif s > 1e-9 * n and abs(math.remainder(ph - math.atan2(p[1], p[0]), 2 * math.pi)) > 1e-12:
+                        fails.append(f"{shown}: phi = {ph} is not atan2(y, x) = {math.atan2(p[1], p[0])}")
             elif c[0] == "to_cartesian":
-                ph, th, r = c[1]
-                x, y, z = (float(v[0]) for v in geo.to_cartesian(ph, th, r))
+                ph, th, r = (float(v) for v in c[1])
+                x, y, z = (float(np.asarray(v).reshape(-1)[0]) for v in geo.to_cartesian(*present(c)))
                 e = np.array([r * math.sin(th) * math.cos(ph), r * math.sin(th) * math.sin(ph), r * math.cos(th)])
-                if np.abs(np.array([x, y, z]) - e).max() > 1e-12 * abs(r):
-                    fails.append(f"to_cartesian({ph}, {th}, {r}) = {(x, y, z)}, expected {tuple(e)}")
+                shown = f"to_cartesian({c[1][0]}, {c[1][1]}, {c[1][2]})" + (f" given as {rep_of(c)['dt']} ({rep_of(c)['as']})" if rep_of(c) else "")
+                if not np.all(np.isfinite([x, y, z])) or np.abs(np.array([x, y, z]) - e).max() > 1e-12 * abs(r):
+                    fails.append(f"{shown} = {(x, y, z)}, expected {tuple(e)}")
             elif c[0] == "lambert":
-                x, y, z = c[1]
+                x, y, z = (float(v) for v in c[1])
                 if abs(x * x + y * y + z * z - 1) > 1e-12:
                     return []
-                X, Y = (float(v[0]) for v in geo.lambert_equal_area(x, y, z))
+                X, Y = (float(np.asarray(v).reshape(-1)[0]) for v in geo.lambert_equal_area(*present(c)))
                 if not (math.isfinite(X) and math.isfinite(Y)):
                     fails.append(f"lambert_equal_area{c[1]} is not finite")
                 else:
@@ -740,7 +972,8 @@ def oracle(c):
                 kw = {} if k == 1 else {"σ": sigma}
 
                 def run(dd):
-                    return stats.point_density(dd[:, 0], dd[:, 1], dd[:, 2], gridsteps=g, weights=w,
+                    cols, ww = present_density(c[:6] + (dd, c[7]))
+                    return stats.point_density(cols[0], cols[1], cols[2], gridsteps=g, weights=ww,
                                                kernel=KERNELS[k], axial=axial, **kw)
                 X, Y, t = run(d)
                 if np.all(np.isnan(t)):
@@ -770,19 +1003,35 @@ def oracle(c):
     return fails
 
 
+REP_PREF = ("int32", "int64", "pyint", "int16", "uint32", "float32", "uint8", "int8", "uint16", "uint64", "float16", "bool",
+            "float64", "pyfloat")
+
+
 def search(chk, extra=()):
+    """failing inputs judged by the property oracle.  Disagreeing cases first; among input
+    representations the integer dtypes come first (an overflowing integer coordinate is the more
+    telling witness than a reduced-precision one), one witness per (function, dtype)."""
     found, seen = [], set()
-    pool = list(extra) + gen_cases(chk, "quick")
+
+    def pref(c):
+        rep = rep_of(c)
+        return REP_PREF.index(rep["dt"]) if rep else len(REP_PREF)
+
+    pool = sorted(extra, key=pref) + gen_cases(chk, "quick")
     for c in pool:
+        rep = rep_of(c)
+        sig0 = (c[0], c[1] if c[0] == "poles" else None, rep["dt"] if rep else None)
+        if sig0 in seen and rep:
+            continue
         fails = oracle(c)
         if fails:
-            sig = (c[0], c[1] if c[0] == "poles" else None, fails[0][:25])
+            sig = sig0 if rep else sig0 + (fails[0][:25],)
             if sig in seen:
                 continue
             seen.add(sig)
             c1 = shrink(c)
             found.append((c1, oracle(c1) or fails))
-            if len(found) >= 3:
+            if len(found) >= 4:
                 break
     return found
 
@@ -804,12 +1053,18 @@ def shrink(c):
 
 
 def run(chk):
-    ok, br = proofs.prove(chk, FILES, PROP, groups=(GROUP,), gen_modules=("geometry",))
+    ok, br = proofs.prove(chk, FILES, PROP, groups=(GROUP,), gen_modules=("geometry", "density"))
     chk.cov["trusted_base"] = common.TRUSTED_COMMON + [
         "GeoProxy in translator/specs_geometry.py: symbolic meaning of np.atleast_1d/.astype(float), array arctan2/logical_and, "
         "np.tensordot((N,3,3),(3,),axes=(2,0)), scipy.linalg.norm(axis=1) and of the numpy.ma idiom of lambert_equal_area "
         "(masked_where / domained true_divide and sqrt / fill_value / filled) -- checked against the implementation by this differential run",
-        "hand-written Model_density.v (point_density, five kernels, poles_all over the generated one-orientation poles); tie H = this differential run",
+        "hand-written Model_density.v (point_density, five kernels, poles_all over the generated one-orientation poles); tie T at grid sizes 2, 3 with 1, 2 data vectors "
+        "(gen/Gen_density.v regenerated from pydrex.stats.point_density and its kernels on every run, proved equal to the model: C20_generated_density_is_model, C20_generated_poles_batch_is_map) "
+        "+ tie H = this differential run for all sizes",
+        "DensityProxy in translator/specs_density.py (subclass of GeoProxy): np.mgrid[a:b:g*1j] = i*((b-a)/(g-1)) + a; np.arcsin = pi/2 - arccos; np.dot((n,3),(3,)) left to right; array <op> scalar = a mask, mask.astype(float) = "
+        "per-element 0/1 expression, a[mask] = one fork per element, a[mask] = scalar per-element expression; ndarray.sum = left fold from 0, .mean = sum / length, both NumPy scalars whose division never raises; array /= scalar never "
+        "raises; Python scalar divisions in the kernels fork on a zero denominator; _geo.to_cartesian / lambert_equal_area on arrays = one call of the generated scalar definition per element; arithmetic is kept literal "
+        "(no 0+x, 1*x, x/1 simplification) so that generated text and model have the same shape",
         "np.arcsin modelled as pi/2 - arccos; np.sum/np.mean modelled as left-to-right sums; array division by zero is an error in the model and nan in NumPy",
         "hand-written Model_poles_axes.v (str.lower on ASCII, set('xyz') - set(s) with set.pop() as the oracle parameter `pick`, the two dictionary "
         "look-ups, columns by index over the generated k_poles_xy); tie H = this differential run over all 24 spellings, illegal strings and input "
